@@ -9,7 +9,9 @@ import selftest
 
 # checks to run besides the property the change was written against
 EXTRA = {'C01-A': ['C03'], 'C01-B': ['C08'], 'C02-A': ['C14', 'C10'], 'C02-B': ['C05', 'C04'], 'C03-B': ['C13'], 'C04-A': ['C05', 'C07'], 'C05-A': ['C18', 'C07'], 'C05-B': ['C18'],
-         'C07-A': ['C04'], 'C07-B': ['C14'], 'C10-B': ['C11'], 'C13-B': ['C03'], 'C14-A': ['C08'], 'C18-B': ['C05'], 'C09-A': [], 'C12-B': ['C06']}
+         'C07-A': ['C04'], 'C07-B': ['C14'], 'C10-B': ['C11'], 'C13-B': ['C03'], 'C14-A': ['C08'], 'C18-B': ['C05'], 'C09-A': [], 'C12-B': ['C06'],
+         'C02-C': ['C09'], 'C02-D': ['C11'], 'C04-C': ['C07'], 'C04-D': ['C05'], 'C05-C': ['C07', 'C04'], 'C05-D': ['C04'], 'C08-C': ['C09'], 'C09-D': ['C08'],
+         'C10-C': ['C03', 'C01'], 'C10-D': ['C11'], 'C06-C': ['C08']}
 NEEDS = {}
 
 
